@@ -1925,9 +1925,10 @@ def sorted_before(a, b):
 
 
 @guarded
-def q16t(ctx, shape=(2, 2), max_count=3, letters=False):
+def q16t(ctx, shape=(2, 2), max_count=3, letters=False, clause='language'):
     """Q16t: the trie built by Dfa::from (no minimisation) accepts exactly the union of the inserted clusters"""
-    ob = Obligation('Q16t[%s]%s' % (','.join(map(str, shape)), '[letters]' if letters else ''), q16t.__doc__)
+    ob = Obligation('%s[%s]%s' % ('Q16t' if clause == 'language' else 'Q16f', ','.join(map(str, shape)), '[letters]' if letters else ''),
+                    q16t.__doc__ if clause == 'language' else 'Q16f: every edge label of the trie carries the presentation flags of the configuration (capturing groups, highlighting, verbose mode), also after two repeat counts were merged into a range')
     ob.domain = ('%d clusters of %s graphemes (one code point each, %s; neighbouring graphemes of a cluster differ), each with an exact '
                  'repeat count in 1..=%d (the form convert_repetitions produces: Q05r)' % (len(shape), '/'.join(map(str, shape)),
                                                                                          'a..z, clusters in the order RegExp::sort establishes' if letters else 'every scalar value, any insertion order', max_count))
@@ -1978,6 +1979,15 @@ def q16t(ctx, shape=(2, 2), max_count=3, letters=False):
                 bads.append(z3.And(here, *o.st.pc))
                 ob.classes_seen['panic'] = ob.classes_seen.get('panic', 0) + 1
                 continue
+            if clause == 'flags':
+                diffs = []
+                for e_ in o.val.get('graph').get('edges').items:
+                    g_ = deref(o.st, e_.fields[2])
+                    for nm_, want in zip(('is_capturing_group_enabled', 'is_output_colorized', 'is_verbose_mode_enabled'), flags):
+                        diffs.append(g_.get(nm_) != want)
+                    ob.classes_seen['edge' if concrete(g_.get('min')) == concrete(g_.get('max')) else 'range-edge'] = 1
+                bads.append(z3.And(here, *o.st.pc, z3.Or(*diffs) if diffs else z3.BoolVal(False)))
+                continue
             words, n_nodes, n_edges = trie_language(o.st, o.val)
             cls = 'nodes=%d' % n_nodes
             ob.classes_seen[cls] = ob.classes_seen.get(cls, 0) + 1
@@ -2020,6 +2030,11 @@ def q16t(ctx, shape=(2, 2), max_count=3, letters=False):
                 i, j = involved[a_], involved[b_]
                 parts.append((cvars[i] == cvars[j]) if vals[i] == vals[j] else (cvars[i] != cvars[j]))
         return z3.Not(z3.And(*parts))
+    if clause == 'flags':
+        fl = [z3.Bool('cfg_is_capturing_group_enabled'), z3.Bool('cfg_is_output_colorized'), z3.Bool('cfg_is_verbose_mode_enabled')]
+        ob.verdict = decide(ob.qid, assume + ob.defs, z3.Or(*bads), allv + fl, all_sat=True, max_models=ctx.cap('Q16f'),
+                            second=ctx.second, workdir=ctx.workdir, second_timeout_s=getattr(ctx, 'second_timeout', 60), block_vars=fl + kvars)
+        return ob
     ob.verdict = decide(ob.qid, assume + ob.defs, z3.Or(*bads), allv, all_sat=True, max_models=ctx.cap('Q16t'),
                         second=ctx.second, workdir=ctx.workdir, second_timeout_s=getattr(ctx, 'second_timeout', 60), blocker=blocker)
     return ob
@@ -4116,4 +4131,101 @@ def q12f(ctx, variant='lf', k=2, m=2):
     ob.verdict = decide(ob.qid, assume + ob.defs, z3.Or(*bads) if bads else z3.BoolVal(True), allv + path, all_sat=True,
                         max_models=ctx.cap('Q12f'), second=ctx.second, workdir=ctx.workdir, second_timeout_s=getattr(ctx, 'second_timeout', 60),
                         block_vars=allv or None)
+    return ob
+
+
+# =========================================================================== Q16u  Expression::union as a unit
+@guarded
+def q16u(ctx, sk_a, sk_b):
+    """Q16u: Expression::union(a, b) denotes L(a) union L(b) (common prefix / suffix factoring, optional parts, character classes)"""
+    ob = Obligation('Q16u[%s + %s]' % (skel_text(sk_a), skel_text(sk_b)), q16u.__doc__)
+    wa, na = skel_words(sk_a)
+    wb, nb = skel_words(sk_b)
+    ob.domain = ('a of shape %s, b of shape %s over %d letters a..z (every equality pattern), built with the real constructors; '
+                 'Expression::union(&Some(a), &Some(b), config) from MIR' % (skel_text(sk_a), skel_text(sk_b), na + nb))
+    ob.bound = 'these two expression shapes'
+    letters = [z3.BitVec('x%d' % i, 32) for i in range(na + nb)]
+    assume = [z3.And(z3.UGE(v, BV(0x61, 32)), z3.ULE(v, BV(0x7A, 32))) for v in letters]
+    words = [[letters[i] for i in w] for w in wa] + [[letters[na + i] for i in w] for w in wb]
+    fields = ctx.mir.structs.get('RegExpConfig')
+    off = {k: (BV(1, 32) if k.startswith('minimum_') else z3.BoolVal(False)) for k in fields}
+    cfgv = config_value(ctx, off)
+    f_lit = ctx.mir.one_fn(r'^expression::<impl at [^>]*>::new_literal$')
+    f_cat = ctx.mir.one_fn(r'^expression::<impl at [^>]*>::new_concatenation$')
+    f_alt = ctx.mir.one_fn(r'^expression::<impl at [^>]*>::new_alternation$')
+    f_rep = ctx.mir.one_fn(r'^expression::<impl at [^>]*>::new_repetition$')
+    f_clu = ctx.mir.one_fn(r'^cluster::<impl at [^>]*>::from$')
+    f_union = ctx.mir.one_fn(r'^expression::<impl at [^>]*>::union$')
+    qvars = ctx.mir.enums.get('Quantifier')
+    ex = ctx.new_exec([(P(r'^<str as UnicodeSegmentation>::graphemes$'), m_graphemes_per_letter)] + make_gc_models(ctx))
+    st = State(pc=list(assume))
+    cfg = st.ref(cfgv)
+
+    def one(outs, what):
+        outs = [o for o in outs if not o.panic]
+        if len(outs) != 1:
+            raise Inconclusive('%s: %d outcomes while building the expression' % (what, len(outs)))
+        return outs[0].st, outs[0].val
+
+    def build(st, sk, pos):
+        k = sk[0]
+        if k == 'L':
+            s_ = st.ref(SymStr(letters[pos[0]:pos[0] + sk[1]]))
+            pos[0] += sk[1]
+            st, cl = one(ex.run_fn(st, f_clu, [s_, cfg]), 'GraphemeCluster::from')
+            return one(ex.run_fn(st, f_lit, [cl, cfg]), 'new_literal')
+        if k == 'C':
+            st, a = build(st, sk[1], pos)
+            st, b = build(st, sk[2], pos)
+            return one(ex.run_fn(st, f_cat, [a, b, cfg]), 'new_concatenation')
+        if k == 'A':
+            vs = []
+            for c in sk[1]:
+                st, v_ = build(st, c, pos)
+                vs.append(v_)
+            return one(ex.run_fn(st, f_alt, [ListV(vs), cfg]), 'new_alternation')
+        if k == 'O':
+            st, a = build(st, sk[1], pos)
+            return one(ex.run_fn(st, f_rep, [a, EnumV('Quantifier', 'QuestionMark', qvars.index('QuestionMark'), ()), cfg]), 'new_repetition')
+        raise Inconclusive('skeleton node %r' % (k,))
+    t0 = time.time()
+    pos = [0]
+    st, a = build(st, sk_a, pos)
+    st, b = build(st, sk_b, pos)
+    some_ = lambda v: EnumV('Option', 'Some', 1, (v,))
+    bads = []
+    npaths = 0
+    for o in ex.run_fn(st, f_union, [st.ref(some_(a)), st.ref(some_(b)), cfg]):
+        npaths += 1
+        if o.panic:
+            bads.append(z3.And(*o.st.pc))
+            ob.classes_seen['panic'] = ob.classes_seen.get('panic', 0) + 1
+            continue
+        r = o.val
+        if not (isinstance(r, EnumV) and r.enum == 'Option' and r.variant == 'Some'):
+            bads.append(z3.And(*o.st.pc))
+            continue
+        try:
+            lang = expression_language(o.st, r.fields[0])
+        except InfiniteLanguage:
+            ob.classes_seen['unbounded-quantifier'] = ob.classes_seen.get('unbounded-quantifier', 0) + 1
+            bads.append(z3.And(*o.st.pc))
+            continue
+        cls = expr_shape(o.st, r.fields[0])
+        ob.classes_seen[cls] = ob.classes_seen.get(cls, 0) + 1
+        bads.append(z3.And(*o.st.pc, z3.Not(set_eq(words, lang))))
+    ctx.finish(ob, ex, t0)
+    ob.paths = npaths
+    ob.extra['words_ix'] = [list(w) for w in wa] + [[na + i for i in w] for w in wb]
+
+    def blocker(m):
+        vals = [m.eval(c, model_completion=True).as_long() for c in letters]
+        parts = []
+        for i in range(len(letters)):
+            for j in range(i + 1, len(letters)):
+                parts.append((letters[i] == letters[j]) if vals[i] == vals[j] else (letters[i] != letters[j]))
+        return z3.Not(z3.And(*parts)) if parts else z3.BoolVal(False)
+    ob.verdict = decide(ob.qid, assume + ob.defs, z3.Or(*bads) if bads else z3.BoolVal(False), letters, all_sat=True,
+                        max_models=ctx.cap('Q16u') + 100, second=ctx.second, workdir=ctx.workdir,
+                        second_timeout_s=getattr(ctx, 'second_timeout', 60), blocker=blocker)
     return ob
